@@ -19,11 +19,11 @@ type SrvConf struct {
 	Comp      []string `json:"comp"`
 	Enc       []string `json:"enc"`
 	Schemes   []string `json:"schemes"`
-	Full      bool     `json:"full"`      // real Server from ServerBuilder instead of a bare ServerChannel
-	Buf       int      `json:"buf"`       // channel buffer size
-	AuthOut   []int    `json:"auth_out"`  // outcome of the k-th authenticate call: 0 member, 1 unknown, 2 round trip, 3 error, 4 authority, 5 empty role
-	RegOut    int      `json:"reg_out"`   // 0 node derived from candidate, 1 error, 2 fixed other node
-	PostEstab int      `json:"post_estab"` // bare mode, once the script is over: 0 leave, 1 FinishSession, 2 FailSession
+	Full      bool     `json:"full"`        // real Server from ServerBuilder instead of a bare ServerChannel
+	Buf       int      `json:"buf"`         // channel buffer size
+	AuthOut   []int    `json:"auth_out"`    // outcome of the k-th authenticate call: 0 member, 1 unknown, 2 round trip, 3 error, 4 authority, 5 empty role
+	RegOut    int      `json:"reg_out"`     // 0 node derived from candidate, 1 error, 2 fixed other node
+	PostEstab int      `json:"post_estab"`  // bare mode, once the script is over: 0 leave, 1 FinishSession, 2 FailSession
 	EstabCtxS int      `json:"estab_ctx_s"` // bare mode: EstablishSession context timeout in seconds (0 = 120)
 	VanishIn  string   `json:"vanish_in"`   // "", auth, reg: the peer vanishes while the server is inside that callback
 	VanishRST bool     `json:"vanish_rst"`  // reset instead of an orderly close
@@ -293,8 +293,12 @@ func StartSUT(w *World, h *History, conf SrvConf, port int) (*SUT, error) {
 		}
 		b.MessagesHandlerFunc(func(ctx context.Context, m *lime.Message, snd lime.Sender) error { return hk("message")(ctx, m, snd) })
 		b.NotificationsHandlerFunc(func(ctx context.Context, n *lime.Notification) error { return hk("notification")(ctx, n, nil) })
-		b.RequestCommandsHandlerFunc(func(ctx context.Context, c *lime.RequestCommand, snd lime.Sender) error { return hk("request")(ctx, c, snd) })
-		b.ResponseCommandsHandlerFunc(func(ctx context.Context, c *lime.ResponseCommand, snd lime.Sender) error { return hk("response")(ctx, c, snd) })
+		b.RequestCommandsHandlerFunc(func(ctx context.Context, c *lime.RequestCommand, snd lime.Sender) error {
+			return hk("request")(ctx, c, snd)
+		})
+		b.ResponseCommandsHandlerFunc(func(ctx context.Context, c *lime.ResponseCommand, snd lime.Sender) error {
+			return hk("response")(ctx, c, snd)
+		})
 		s.server = b.Build()
 		// the builder starts from the default scheme list (transport); make the offer exactly conf.Schemes
 		if !hasTransport {
@@ -731,7 +735,6 @@ func ScriptRun(w *World, p *RawPeer, steps []Step) {
 		p.ResumeCleartext()
 	}
 }
-
 
 // Remap rewrites the connection index of events recorded by the serving side (accept order,
 // offset by 1000) to the index of the scripted peer that owns the same session id.
